@@ -11,7 +11,8 @@ from vlib.work import AnalysisBroken
 
 UNITS = ["src/occa/internal/lang/modes/openmp.cpp", "src/occa/internal/lang/modes/serial.cpp", "src/occa/internal/lang/builtins/attributes/atomic.cpp",
          "src/occa/internal/lang/builtins/attributes/exclusive.cpp", "src/occa/internal/lang/builtins/attributes/shared.cpp", "src/occa/internal/lang/builtins/attributes/tile.cpp",
-         "src/occa/internal/lang/builtins/attributes/dim.cpp"]
+         "src/occa/internal/lang/builtins/attributes/dim.cpp", "src/occa/internal/lang/statement/ifStatement.cpp", "src/occa/internal/lang/statement/elifStatement.cpp",
+         "src/occa/internal/lang/statement/forStatement.cpp", "src/occa/internal/lang/statement/whileStatement.cpp", "src/occa/internal/lang/statement/switchStatement.cpp"]
 SHARING = ("occa::lang::static_", "occa::lang::extern_", "occa::lang::register_")
 OMP = "occa::lang::okl::openmpParser::"
 AT = "occa::lang::attributes::atomic::"
@@ -26,6 +27,7 @@ def run(ctx):
     R.rule("C21-R1", "@atomic statements always get an omp atomic / omp critical pragma", floor=10)
     R.rule("C21-R2", "parallel region opened only on outermost @outer loops", floor=5)
     R.rule("C21-R4", "the Serial / OpenMP translation never gives a variable a storage class that is shared between threads (static / extern): what is declared inside the parallel loop stays per thread", floor=1)
+    R.rule("C21-R5", "the statement-tree walk that places the pragmas sees every child: getInnerStatements() reports every statement a node stores", floor=6)
     R.rule("C21-R3", "@exclusive index declared inside the innermost @outer loop", floor=4)
 
     ap = prog.fn(OMP + "afterParsing")
@@ -161,6 +163,47 @@ def run(ctx):
     lam = [prog.funcs[n["lam"]] for n in sx.walk() if n["k"] == "LambdaExpr" and n["lam"] in prog.funcs]
     ok = any(any(c["k"] == "CXXMemberCallExpr" and callee(c) == se.q for c in l.walk()) and any(x["k"] == "StringLiteral" and literal(x) == "exclusive" for x in l.walk()) for l in lam)
     R.ob("C21-R3", ok, sx.q, "declared for every @exclusive declaration", "%s:%d" % (sx.relfile, sx.d["line"]), "nestedForEachDeclaration -> setupExclusiveDeclaration under hasAttribute(\"exclusive\")")
+
+    # ---- R5: @atomic statements (and @outer loops) are found by walking getInnerStatements() -------------------------------------------------
+    n5 = 0
+    for g in sorted(prog.funcs.values(), key=lambda f: f.q):
+        if not g.q.endswith("::getInnerStatements") or g.d.get("tmpl") == "inst" or not g.q.startswith("occa::lang::"):
+            continue
+        cls = g.d.get("cls", "")
+        rec = prog.record(cls) if cls else None
+        if not rec:
+            continue
+        pushes = [c for c in g.walk() if c["k"] == "CXXMemberCallExpr" and callee(c).split("::")[-1] in ("push", "push_back")]
+        for fld in rec["fields"]:
+            t = fld.get("ct") or fld.get("t", "")
+            is_vec = "vector" in t.lower() or "Vector" in fld.get("t", "")
+            if not ("tatement" in t or "tatement" in fld.get("t", "")):
+                continue
+            if not (t.strip().endswith("*") or is_vec):
+                continue
+            used = [c for c in pushes if any(x["k"] == "MemberExpr" and x.get("n") == fld["q"] for a in call_args(c) for x in walk(a))]
+            ok, why = bool(used), "pushed"
+            if is_vec:
+                loops = [l for l in g.walk() if l["k"] in ("CXXForRangeStmt", "ForStmt") and any(x["k"] == "MemberExpr" and x.get("n") == fld["q"] for x in walk(l))]
+                ok = False
+                for l in loops:
+                    body_push = any(c["k"] == "CXXMemberCallExpr" and callee(c).split("::")[-1] in ("push", "push_back") for c in walk(l))
+                    if l["k"] == "CXXForRangeStmt":
+                        ok = ok or body_push
+                        why = "range-for over the whole vector"
+                    else:
+                        init = kids(l)[0]
+                        starts = [literal(kids(v)[0]) for v in walk(init) if v["k"] == "VarDecl" and kids(v)] if init is not None else []
+                        full = starts == [0]
+                        ok = ok or (body_push and full)
+                        why = "counted loop from %s" % (starts[0] if starts else "?")
+            n5 += 1
+            R.ob("C21-R5", ok, g.q, "children:%s reported" % fld["n"], "%s:%d" % (g.relfile, g.d["line"]),
+                 why if ok else
+                 "the stored child statement(s) `%s` are not (all) reported by getInnerStatements() (%s): the walk that looks for @atomic statements and @outer loops never visits them - an @atomic update there gets no omp atomic / critical pragma "
+                 "inside the parallel loop" % (fld["n"], why))
+    if n5 < 6:
+        raise AnalysisBroken("getInnerStatements family: only %d stored child members found" % n5)
 
     # ---- R4: who-adds a qualifier, and which ------------------------------------------------------------------------------------------
     n_add = 0
